@@ -171,7 +171,14 @@ pub fn main_hist(a: &Args) -> i32 {
     }
     let per_child = if a.replay.is_some() { 1 } else { a.per_child };
     let outcomes = isolate::run(hists.len(), per_child, 30_000, |i| {
-        let r = e3_hist::run_history(&w, &opts, &hists[i]);
+        let mut r = e3_hist::run_history(&w, &opts, &hists[i]);
+        // determinism: every 8th history is executed twice and must be observed identically
+        if i % 8 == 0 && r.violations.is_empty() {
+            let r2 = e3_hist::run_history(&w, &opts, &hists[i]);
+            if r2.digest_api != r.digest_api || r2.digest_env != r.digest_env {
+                r.violations.push(e3_hist::Violation { prop: "MACHINERY", key: "nondeterministic-execution".into(), step: 0, what: "two executions of the same history gave different observations".into() });
+            }
+        }
         let stop = !r.violations.is_empty();
         (encode_result(&r), stop)
     });
@@ -415,7 +422,13 @@ pub fn main_async(a: &Args) -> i32 {
     }
     let per_child = if a.replay.is_some() { 1 } else { a.per_child };
     let outcomes = isolate::run(hists.len(), per_child, 60_000, |i| {
-        let r = e3_async::run_history(&hists[i], second_thread);
+        let mut r = e3_async::run_history(&hists[i], second_thread);
+        if i % 8 == 0 && r.violations.is_empty() {
+            let r2 = e3_async::run_history(&hists[i], second_thread);
+            if r2.digest != r.digest {
+                r.violations.push(e3_async::Violation { prop: "MACHINERY", key: "nondeterministic-execution".into(), step: 0, what: "two executions of the same history gave different observations".into() });
+            }
+        }
         let stop = !r.violations.is_empty();
         let v = json!({"d": r.digest, "steps": r.steps,
             "v": r.violations.iter().map(|x| json!({"prop": x.prop, "key": x.key, "step": x.step, "what": x.what})).collect::<Vec<_>>()});
